@@ -553,6 +553,7 @@ pub fn run_plan(plan: &SchedPlan, shared: &Shared, ref_shared: &Shared, refs: &m
     let progress: Vec<Mutex<(usize, bool)>> = (0..n).map(|_| Mutex::new((0usize, false))).collect(); // (ops completed, died)
     let yields_total = Arc::new(Mutex::new(0u64));
     let exit_results: Vec<Arc<Mutex<Option<(Op, Outcome)>>>> = (0..n).map(|_| Arc::new(Mutex::new(None))).collect();
+    let unwind_results: Vec<Arc<Mutex<Option<(Op, Outcome)>>>> = (0..n).map(|_| Arc::new(Mutex::new(None))).collect();
     let exit_flush = !crate::mc::instrumented();
     let mut decisions: Vec<usize> = vec![];
     let mut exec_order: Vec<(usize, usize)> = vec![]; // (thread, op index) in completion order
@@ -569,6 +570,7 @@ pub fn run_plan(plan: &SchedPlan, shared: &Shared, ref_shared: &Shared, refs: &m
                 let progress = &progress;
                 let yields_total = yields_total.clone();
                 let exit_out = exit_results[i].clone();
+                let unwind_out = unwind_results[i].clone();
                 s.spawn(move || {
                     tok::enter(&sim, i);
                     if exit_flush {
@@ -606,8 +608,29 @@ pub fn run_plan(plan: &SchedPlan, shared: &Shared, ref_shared: &Shared, refs: &m
                     }
                     if died {
                         progress[i].lock().unwrap().1 = true;
+                        // while the thread unwinds, a destructor of the caller evaluates the thread's last
+                        // operation once more (clean-up code that reports a last result): `thread::panicking()`
+                        // is true, which no library call may depend on
+                        let unwind_op = if exit_flush { tp.ops.get(sim.ops_done[i].load(std::sync::atomic::Ordering::SeqCst).saturating_sub(1)).and_then(exit_op) } else { None };
+                        struct UnwindEval<'x> {
+                            op: Option<Op>,
+                            shared: &'x Shared,
+                            rs: &'x RunShared,
+                            out: Arc<Mutex<Option<(Op, Outcome)>>>,
+                        }
+                        impl<'x> Drop for UnwindEval<'x> {
+                            fn drop(&mut self) {
+                                if let Some(op) = self.op.take() {
+                                    let mut fresh = ThreadObjs::new();
+                                    let (outcome, _) = eval_caught(&op, self.shared, self.rs, &mut fresh);
+                                    *self.out.lock().unwrap() = Some((op, outcome));
+                                }
+                            }
+                        }
+                        let guard = UnwindEval { op: unwind_op, shared, rs, out: unwind_out.clone() };
                         let _ = catch_unwind(AssertUnwindSafe(|| {
                             let _moved = tl;
+                            let _g = guard;
                             std::panic::panic_any(HarnessPanic);
                         }));
                     }
@@ -969,11 +992,18 @@ pub fn run_plan(plan: &SchedPlan, shared: &Shared, ref_shared: &Shared, refs: &m
             cnt.inc("probe_shared_object_used_by_2plus_threads");
         }
     }
-    // ---- what the threads evaluated from their exit destructors
-    for (t, slot) in exit_results.iter().enumerate() {
-        if let Some((op, outcome)) = slot.lock().unwrap().take() {
-            cnt.inc("fault_fired_library_call_from_thread_exit_destructor");
-            dg.str("exit");
+    // ---- what the threads evaluated from their exit destructors, and from a destructor running while the
+    // thread unwound from the harness's panic
+    let late: Vec<(usize, bool, (Op, Outcome))> = exit_results
+        .iter()
+        .enumerate()
+        .filter_map(|(t, s)| s.lock().unwrap().take().map(|x| (t, false, x)))
+        .chain(unwind_results.iter().enumerate().filter_map(|(t, s)| s.lock().unwrap().take().map(|x| (t, true, x))))
+        .collect();
+    for (t, unwinding, (op, outcome)) in late {
+        {
+            cnt.inc(if unwinding { "fault_fired_library_call_while_the_thread_unwinds" } else { "fault_fired_library_call_from_thread_exit_destructor" });
+            dg.str(if unwinding { "unwind" } else { "exit" });
             let key = view_key(plan, &op);
             let expected = refs.map.get(&key);
             let same = match (&outcome, expected) {
@@ -992,7 +1022,7 @@ pub fn run_plan(plan: &SchedPlan, shared: &Shared, ref_shared: &Shared, refs: &m
             }
             if !same && !tls_gone && violation.is_none() {
                 violation = Some(SViolation {
-                    invariant: "c20/usable-while-the-thread-exits".into(),
+                    invariant: if unwinding { "c20/usable-while-the-thread-unwinds".into() } else { "c20/usable-while-the-thread-exits".into() },
                     thread: t,
                     op_index: plan.threads[t].ops.len(),
                     op: op.key(),
